@@ -25,6 +25,15 @@ class Opaque:
     text: str
 
 
+PURE_STR_METHODS = {'format', 'join', 'replace', 'strip', 'lstrip', 'rstrip', 'lower', 'upper', 'split', 'rsplit', 'partition', 'rpartition',
+                    'startswith', 'endswith', 'removeprefix', 'removesuffix', 'title', 'get', 'keys', 'values', 'items', 'count', 'index',
+                    'zfill', 'center', 'ljust', 'rjust', 'casefold', 'capitalize', 'swapcase', 'translate', 'expandtabs', 'splitlines',
+                    'union', 'intersection', 'difference'}
+PURE_BUILTINS = {'len': len, 'str': str, 'int': int, 'tuple': tuple, 'list': list, 'frozenset': frozenset, 'set': frozenset, 'dict': dict,
+                 'sorted': sorted, 'chr': chr, 'min': min, 'max': max, 'sum': sum, 'bool': bool, 'repr': repr, 'abs': abs, 'zip': zip,
+                 'enumerate': enumerate, 'range': range, 'reversed': reversed, 'hex': hex}
+
+
 class Folder:
     """Evaluates side-effect-free constant expressions over the module environments."""
 
@@ -149,7 +158,78 @@ class Folder:
                 return ord(self.ev(mn, n.args[0], local))
             if cn == 're.escape' and len(n.args) == 1:
                 return Opaque(unparse(n.args[0]))
+            # pure operations on constants: str methods (incl. format), a few builtins
+            if isinstance(n.func, ast.Attribute) and n.func.attr in PURE_STR_METHODS:
+                recv = self.ev(mn, n.func.value, local)
+                if isinstance(recv, (str, tuple, frozenset, dict)) and not isinstance(recv, Opaque):
+                    args = [self.ev(mn, a, local) for a in n.args]
+                    kw = {k.arg: self.ev(mn, k.value, local) for k in n.keywords if k.arg}
+                    if any(isinstance(x, Opaque) for x in list(args) + list(kw.values())):
+                        raise Unfoldable('opaque argument')
+                    try:
+                        r = getattr(recv, n.func.attr)(*args, **kw)
+                    except Exception as e:  # noqa: BLE001
+                        raise Unfoldable(f'{n.func.attr}: {e}')
+                    return tuple(r) if isinstance(r, list) else r
+            if isinstance(n.func, ast.Name) and n.func.id in PURE_BUILTINS and n.func.id not in self.env_nodes.get(mn, {}):
+                args = [self.ev(mn, a, local) for a in n.args]
+                if any(isinstance(x, Opaque) for x in args):
+                    raise Unfoldable('opaque argument')
+                try:
+                    r = PURE_BUILTINS[n.func.id](*args)
+                except Exception as e:  # noqa: BLE001
+                    raise Unfoldable(f'{n.func.id}: {e}')
+                return tuple(r) if isinstance(r, list) else r
             raise Unfoldable(f'call {cn}')
+        if isinstance(n, ast.Subscript):
+            base = self.ev(mn, n.value, local)
+            if isinstance(base, Opaque):
+                raise Unfoldable('subscript of an opaque value')
+            try:
+                if isinstance(n.slice, ast.Slice):
+                    lo = self.ev(mn, n.slice.lower, local) if n.slice.lower is not None else None
+                    hi = self.ev(mn, n.slice.upper, local) if n.slice.upper is not None else None
+                    st = self.ev(mn, n.slice.step, local) if n.slice.step is not None else None
+                    return base[lo:hi:st]
+                return base[self.ev(mn, n.slice, local)]
+            except (KeyError, IndexError, TypeError) as e:
+                raise Unfoldable(f'subscript: {e}')
+        if isinstance(n, ast.IfExp):
+            return self.ev(mn, n.body, local) if self.ev(mn, n.test, local) else self.ev(mn, n.orelse, local)
+        if isinstance(n, ast.Compare) and len(n.ops) == 1:
+            a, b = self.ev(mn, n.left, local), self.ev(mn, n.comparators[0], local)
+            ops = {ast.Eq: lambda: a == b, ast.NotEq: lambda: a != b, ast.In: lambda: a in b, ast.NotIn: lambda: a not in b,
+                   ast.Lt: lambda: a < b, ast.LtE: lambda: a <= b, ast.Gt: lambda: a > b, ast.GtE: lambda: a >= b,
+                   ast.Is: lambda: a is b, ast.IsNot: lambda: a is not b}
+            f = ops.get(type(n.ops[0]))
+            if f is not None:
+                return f()
+        if isinstance(n, ast.BoolOp):
+            vals = [self.ev(mn, v, local) for v in n.values]
+            out = vals[0]
+            for v in vals[1:]:
+                out = (out and v) if isinstance(n.op, ast.And) else (out or v)
+            return out
+        if isinstance(n, (ast.ListComp, ast.GeneratorExp, ast.SetComp, ast.DictComp)) and len(n.generators) == 1 \
+                and isinstance(n.generators[0].target, (ast.Name, ast.Tuple)):
+            g = n.generators[0]
+            out = []
+            for item in self.ev(mn, g.iter, local):
+                loc = dict(local)
+                if isinstance(g.target, ast.Name):
+                    loc[g.target.id] = item
+                else:
+                    for t, v in zip(g.target.elts, item):
+                        if not isinstance(t, ast.Name):
+                            raise Unfoldable('comprehension target')
+                        loc[t.id] = v
+                if all(self.ev(mn, c, loc) for c in g.ifs):
+                    out.append((self.ev(mn, n.key, loc), self.ev(mn, n.value, loc)) if isinstance(n, ast.DictComp) else self.ev(mn, n.elt, loc))
+            if isinstance(n, ast.DictComp):
+                return dict(out)
+            return frozenset(out) if isinstance(n, ast.SetComp) else tuple(out)
+        if isinstance(n, ast.Starred):
+            raise Unfoldable('starred')
         raise Unfoldable(type(n).__name__)
 
     def try_ev(self, mn: str, n: ast.AST, local=None, default=None):
